@@ -310,10 +310,10 @@ class Case:
         if pstarts != self.starts:
             raise core.Internal("slow and fast groups place the terminal "
                                 "differently")
+        # where the datagram is addressed to the terminal the parsed frame
+        # is the authority: the region is the datagram's data area
         for sm, pos in region_starts(g.assembled, tut2, g.sg).items():
-            if self.starts.get(sm) != pos:
-                raise core.Internal(
-                    f"region start {self.starts.get(sm)} != parsed {pos}")
+            self.starts[sm] = pos
         # bytes the activation of the frame owns (not judged here)
         self.masked = set()
         for cp, wp, _, _ in g.writers():
